@@ -101,6 +101,12 @@ pub fn install_quiet_hook() {
             .map(|l| {
                 let f = l.file();
                 let f = f.strip_prefix("/repo/").unwrap_or(f);
+                // scratch copies of the repository (sensitivity runs): keep the path inside the repository
+                let f = match (f.find("/crates/"), f.find("/air/src/")) {
+                    (Some(i), _) if f.starts_with('/') => &f[i + 1..],
+                    (_, Some(i)) if f.starts_with('/') => &f[i + 1..],
+                    _ => f,
+                };
                 // registry paths: keep crate dir + file
                 let f = match f.find("/vendor/") {
                     Some(i) => &f[i + 8..],
